@@ -227,6 +227,8 @@ def run_model(ctx, cases):
 
 def l1_extra(case, impl_obs):
     w = impl_obs.split()
+    if w == ["?"]:
+        return True       # not a case (only met while shrinking)
     t = {w[i].rstrip("="): w[i + 1] for i in range(0, len(w) - 1, 2)}
     if t.get("fds") != "0":
         return False
@@ -241,6 +243,32 @@ def l1_extra(case, impl_obs):
         if t.get("leak") != "0":
             return False
     return True
+
+
+def tokens(c):
+    """shrinking: the names of a listing / the entries of a setup are dropped one by one"""
+    t = c.split(" ")
+    if t[0] in ("R", "RL") and len(t) == 2:
+        return [t[0]] + ["," + x for x in t[1].split(",")]
+    if t[0] == "V" and len(t) == 3:
+        return t[:2] + ["," + x for x in t[2].split(",")]
+    if t[0] == "D" and len(t) == 4:
+        return t[:2] + [";" + x for x in t[2].split(",")] + ["=" + t[3]]
+    if t[0] == "Q" and len(t) == 3:
+        return t[:1] + [";" + x for x in t[1].split(",")] + ["=" + t[2]]
+    return [c]
+
+
+def untokens(toks):
+    head = [x for x in toks if x[0] not in ",;="]
+    names = [x[1:] for x in toks if x[0] == ","]
+    setup = [x[1:] for x in toks if x[0] == ";"]
+    path = [x[1:] for x in toks if x[0] == "="]
+    if head and head[0] in ("D", "Q"):
+        return " ".join(head + [",".join(setup) or "-"] + path)
+    if head and head[0] in ("R", "RL", "V"):
+        return " ".join(head + [",".join(names) or "-"])
+    return " ".join(toks)
 
 
 def nontrivial(c):
